@@ -63,4 +63,65 @@ theorem sortStable_stable {α : Type} (less : α → α → Bool) (xs : List α)
   have := List.reverse_sublist.mpr h2
   simpa using this
 
+theorem bytesLt_asymm : ∀ a b : Bytes, bytesLt a b = true → bytesLt b a = false := by
+  intro a
+  induction a with
+  | nil => intro b; cases b <;> simp [bytesLt]
+  | cons x xs ih =>
+    intro b
+    cases b with
+    | nil => simp [bytesLt]
+    | cons y ys =>
+      simp only [bytesLt, Bool.or_eq_true, Bool.and_eq_true, decide_eq_true_eq, beq_iff_eq, Bool.or_eq_false_iff,
+        Bool.and_eq_false_imp, decide_eq_false_iff_not]
+      rintro (h | ⟨rfl, h⟩)
+      · refine ⟨?_, ?_⟩
+        · exact fun h2 => absurd (UInt8.lt_iff_toNat_lt.mp h) (by have := UInt8.lt_iff_toNat_lt.mp h2; omega)
+        · rintro rfl; exact absurd (UInt8.lt_iff_toNat_lt.mp h) (by omega)
+      · exact ⟨fun h2 => absurd (UInt8.lt_iff_toNat_lt.mp h2) (by omega), fun _ => ih ys h⟩
+
+theorem bytesLt_negtrans : ∀ a b c : Bytes, bytesLt a b = false → bytesLt b c = false → bytesLt a c = false := by
+  intro a
+  induction a with
+  | nil =>
+    intro b c h1 h2
+    cases b with
+    | nil => exact h2
+    | cons y ys => simp [bytesLt] at h1
+  | cons x xs ih =>
+    intro b c h1 h2
+    cases b with
+    | nil =>
+      cases c with
+      | nil => simp [bytesLt]
+      | cons z zs => simp [bytesLt] at h2
+    | cons y ys =>
+      cases c with
+      | nil => simp [bytesLt]
+      | cons z zs =>
+        simp only [bytesLt, Bool.or_eq_false_iff, decide_eq_false_iff_not, Bool.and_eq_false_imp, beq_iff_eq,
+          UInt8.lt_iff_toNat_lt] at h1 h2 ⊢
+        obtain ⟨a1, a2⟩ := h1
+        obtain ⟨b1, b2⟩ := h2
+        refine ⟨by omega, ?_⟩
+        rintro rfl
+        have hxy : x = y := UInt8.toNat_inj.mp (by omega)
+        subst hxy
+        exact ih ys zs (a2 rfl) (b2 rfl)
+
+/-- `ByName` is a strict weak order, so `sort_stable_spec` applies to it unconditionally -/
+theorem byName_strict_weak :
+    (∀ a b : Row, Order.byName.less a b = true → Order.byName.less b a = false) ∧
+    (∀ a b c : Row, Order.byName.less a b = false → Order.byName.less b c = false → Order.byName.less a c = false) :=
+  ⟨fun a b => bytesLt_asymm a.bench b.bench, fun a b c => bytesLt_negtrans a.bench b.bench c.bench⟩
+
+/-- reversing an order (`Reverse`) preserves being a strict weak order -/
+theorem reverse_strict_weak (o : Order)
+    (h : (∀ a b : Row, o.less a b = true → o.less b a = false) ∧
+         (∀ a b c : Row, o.less a b = false → o.less b c = false → o.less a c = false)) :
+    (∀ a b : Row, (Order.reverse o).less a b = true → (Order.reverse o).less b a = false) ∧
+    (∀ a b c : Row, (Order.reverse o).less a b = false → (Order.reverse o).less b c = false →
+      (Order.reverse o).less a c = false) :=
+  ⟨fun a b hab => h.1 b a hab, fun a b c h1 h2 => h.2 c b a h2 h1⟩
+
 end C17
